@@ -353,7 +353,18 @@ macro_rules! impl_tryfrom_integer {
 
             fn try_from(value: Token) -> Result<Self, Self::Error> {
                 match value {
-                    Token::DecimalNumericProgramData(value) => lexical_core::parse::<$from>(value)
+                    // Parse NR1 through the widest integer and narrow it: lexical-core (0.8) does not
+                    // reliably detect overflow of narrower types (`369` parses as `113u8`).
+                    Token::DecimalNumericProgramData(value) => lexical_core::parse::<i128>(value)
+                        .and_then(|wide| {
+                            <$from>::try_from(wide).map_err(|_| {
+                                if wide < 0 {
+                                    lexical_core::Error::Underflow(0)
+                                } else {
+                                    lexical_core::Error::Overflow(0)
+                                }
+                            })
+                        })
                         .or_else(|e| {
                             if matches!(e, lexical_core::Error::InvalidDigit(_)) {
                                 let value = lexical_core::parse::<$intermediate>(value)?;
